@@ -27,7 +27,8 @@ logging.disable(logging.CRITICAL)   # the reader / writer log every defaulted va
 RULE = ("a case is one schema-expressible scenario + planning-problem set (JSON spec in harness/c03_gen.py: 1-5 lanelets with "
         "bounds/line markings/stop lines/adjacency/references, traffic signs of every country enum, traffic lights, "
         "intersections, static/dynamic(trajectory of 5 state classes or occupancy set)/phantom/environment obstacles, 1-3 "
-        "planning problems with interval goals) built through the public constructors and written at a precision 1..12; numbers "
+        "planning problems with interval goals; shapes of dynamic obstacles centred+unrotated as well as off-centre / rotated; "
+        "signal states with any subset of the six flags incl. horn) built through the public constructors and written at a precision 1..12; numbers "
         "are drawn from ordinary, tiny (1e-6 rad, lengths below 1e-4, 5e-324), big (1e5 m .. 1e15) and exponent-form-huge "
         "(>=1e16) pools, ids up to 10^18. Every case is non-trivial (>= 1 number whose repr is in exponent form or >= 1 optional "
         "element); distinct = distinct canonical JSON of the spec. Per document: 8 mutants (swapped / dropped / duplicated / "
@@ -52,7 +53,8 @@ TRUSTED = [
 ]
 REQUIRED_BUCKETS = ["doc/valid", "doc/reader-ok", "num/exponent-repr-small", "num/exponent-repr-large", "num/length<1e-4",
                     "mutant/valid", "mutant/invalid", "mutant/swap", "mutant/number", "mutant/ref", "mutant/id", "mutant/enum",
-                    "builder/lanelet", "builder/dynamicObstacle", "builder/state", "precision/1", "precision/12",
+                    "builder/lanelet", "builder/dynamicObstacle", "builder/state",
+                    "builder/dyn-shape-default", "builder/dyn-shape-offcentre-or-rotated", "builder/signalState", "precision/1", "precision/12",
                     "num/orientation<1e-4", "fmt/float_to_str"]
 WORKERS = {"quick": 1, "thorough": 8}
 
@@ -315,7 +317,9 @@ def builder_items(sc, pps, writer_location, writer_tags, root):
     from commonroad.common.common_lanelet import LineMarking
     from commonroad.scenario.scenario import Location, TimeOfDay, Underground, Weather
     from commonroad.scenario.traffic_light import TrafficLightDirection
+    import numpy as np
     items = []
+    ctx_tags = []
 
     def add(b, params, node):
         items.append((b, params, _kids(node)))
@@ -326,9 +330,16 @@ def builder_items(sc, pps, writer_location, writer_tags, root):
         shapes = shape.shapes if isinstance(shape, ShapeGroup) else [shape]
         for s, n in zip(shapes, nodes):
             if isinstance(s, Rectangle):
-                add("rectangle", {"dyn": dyn}, n)
+                # guards of the writer as written: `rectangle.orientation != 0.0`, `np.any(np.asarray(center) != 0.0)`
+                ori, ctr = bool(s.orientation != 0.0), bool(np.any(np.asarray(s.center) != 0.0))
+                add("rectangle", {"dyn": dyn, "ori": ori, "ctr": ctr}, n)
+                if dyn:
+                    ctx_tags.append("builder/dyn-shape-default" if not (ori or ctr) else "builder/dyn-shape-offcentre-or-rotated")
             elif isinstance(s, Circle):
-                add("circle", {"dyn": dyn}, n)
+                ctr = bool(np.any(np.asarray(s.center) != 0.0))
+                add("circle", {"dyn": dyn, "ctr": ctr}, n)
+                if dyn:
+                    ctx_tags.append("builder/dyn-shape-default" if not ctr else "builder/dyn-shape-offcentre-or-rotated")
             elif isinstance(s, Polygon):
                 add("polygon", {"n": len(s.vertices)}, n)
         return ks
@@ -412,7 +423,7 @@ def builder_items(sc, pps, writer_location, writer_tags, root):
             add("value", {"interval": isinstance(o.time_step, Interval)}, on.find("time"))
 
     def signal_params(s):
-        return {"il": hasattr(s, "indicator_left"), "ir": hasattr(s, "indicator_right"), "bl": hasattr(s, "braking_lights"),
+        return {"horn": hasattr(s, "horn"), "il": hasattr(s, "indicator_left"), "ir": hasattr(s, "indicator_right"), "bl": hasattr(s, "braking_lights"),
                 "hz": hasattr(s, "hazard_warning_lights"), "fb": hasattr(s, "flashing_blue_lights")}
 
     for tag, cls in (("staticObstacle", StaticObstacle), ("dynamicObstacle", DynamicObstacle), ("phantomObstacle", PhantomObstacle),
@@ -465,7 +476,7 @@ def builder_items(sc, pps, writer_location, writer_tags, root):
         add("state", {"attrs": list(pp.initial_state.used_attributes)}, n.find("initialState"))
         for g, gn in zip(pp.goal.state_list, n.findall("goalState")):
             add("state", {"attrs": list(g.used_attributes)}, gn)
-    return items
+    return items, ctx_tags
 
 
 # ------------------------------------------------------------------------------------------------ one document
@@ -582,7 +593,8 @@ def run_doc(ctx, spec, mutants=8, correspond=True):
                 f"lxml.XMLSchema vs CR.Xsd.validDoc on writer output; model diag {res['diag']}; lxml {[e.message[:120] for e in errs[:2]]}")
     # ---- correspondence B: builders (child-name sequences)
     try:
-        items = builder_items(sc, pps, loc, tags, root)
+        items, btags = builder_items(sc, pps, loc, tags, root)
+        ctx.tag(*btags)
     except Exception as e:  # noqa  -- the document does not have the expected nodes: the oracle above has reported it
         items = []
         ctx.tag("builder/unpaired")
